@@ -3,6 +3,8 @@ package main
 import (
 	"fmt"
 	"go/ast"
+	"go/token"
+	"regexp"
 	"io/fs"
 	"os"
 	"path/filepath"
@@ -259,6 +261,11 @@ func extractC06(c *Ctx) error {
 	}
 	c.P("Definition skyway_default_gas_estimate : Z := %s.", dz)
 
+	// ---- 3b. the readers the clearing / duplicate paths depend on, and whatever could cut their scans short ----
+	if err := c06Readers(c); err != nil {
+		return err
+	}
+
 	// ---- 4. call-graph query: who calls the signature-keeping reassignment ----
 	callers, err := reassignCallers(c)
 	if err != nil {
@@ -329,4 +336,413 @@ func reassignCallers(c *Ctx) ([]string, error) {
 		return nil, err
 	}
 	return SortedSet(set), nil
+}
+
+// ---------- readers behind the clearing and duplicate checks ----------
+
+var c06BoundName = regexp.MustCompile(`(?i)^(max|limit|cap$|page|count$|top)|MaxResults|Limit|PageSize`)
+
+// c06ScanCuts lists every construct in fd's body that can end a scan early or bound what it reads:
+// break / continue / goto (except `if cb(..) { break }` on a callback PARAMETER: then the callers' callbacks decide and
+// are scanned themselves), a callback literal that returns anything but `false`, a `return` inside a loop that is not an
+// error return, a loop whose condition is not `<iter>.Valid()`, a slice expression with a bound, an identifier that looks
+// like a limit.  An empty list = the function reads everything it iterates over.
+func c06ScanCuts(c *Ctx, fd *ast.FuncDecl) []string {
+	var cuts []string
+	cbs := map[string]bool{}
+	for _, p := range fd.Type.Params.List {
+		if _, ok := p.Type.(*ast.FuncType); ok {
+			for _, n := range p.Names {
+				cbs[n.Name] = true
+			}
+		}
+	}
+	one := func(n ast.Node) string { return strings.Join(strings.Fields(c.Src(n)), " ") }
+	isCbCall := func(e ast.Expr) bool {
+		ce, ok := e.(*ast.CallExpr)
+		if !ok {
+			return false
+		}
+		id, ok := ce.Fun.(*ast.Ident)
+		return ok && cbs[id.Name]
+	}
+	var stmts func(list []ast.Stmt, inLoop, inLit bool, guard ast.Expr)
+	var exprs func(n ast.Node)
+	exprs = func(n ast.Node) {
+		if n == nil {
+			return
+		}
+		ast.Inspect(n, func(x ast.Node) bool {
+			switch e := x.(type) {
+			case *ast.FuncLit:
+				stmts(e.Body.List, false, true, nil)
+				return false
+			case *ast.SliceExpr:
+				if e.High != nil || e.Low != nil {
+					cuts = append(cuts, "slice bound "+one(e))
+				}
+			case *ast.Ident:
+				if c06BoundName.MatchString(e.Name) {
+					cuts = append(cuts, "mentions "+e.Name)
+				}
+			}
+			return true
+		})
+	}
+	var stmt func(s ast.Stmt, inLoop, inLit bool, guard ast.Expr)
+	stmt = func(s ast.Stmt, inLoop, inLit bool, guard ast.Expr) {
+		switch x := s.(type) {
+		case nil:
+		case *ast.BlockStmt:
+			stmts(x.List, inLoop, inLit, guard)
+		case *ast.ForStmt:
+			stmt(x.Init, inLoop, inLit, guard)
+			ok := false
+			if ce, isCall := x.Cond.(*ast.CallExpr); isCall && len(ce.Args) == 0 {
+				if se, isSel := ce.Fun.(*ast.SelectorExpr); isSel && se.Sel.Name == "Valid" {
+					ok = true
+				}
+			}
+			if !ok {
+				cond := "<none>"
+				if x.Cond != nil {
+					cond = one(x.Cond)
+				}
+				cuts = append(cuts, "loop condition "+cond)
+			}
+			exprs(x.Cond)
+			stmt(x.Post, inLoop, inLit, guard)
+			stmts(x.Body.List, true, inLit, nil)
+		case *ast.RangeStmt:
+			exprs(x.X)
+			stmts(x.Body.List, true, inLit, nil)
+		case *ast.IfStmt:
+			stmt(x.Init, inLoop, inLit, guard)
+			exprs(x.Cond)
+			stmts(x.Body.List, inLoop, inLit, x.Cond)
+			stmt(x.Else, inLoop, inLit, x.Cond)
+		case *ast.SwitchStmt:
+			stmt(x.Init, inLoop, inLit, guard)
+			exprs(x.Tag)
+			for _, cc := range x.Body.List {
+				cl := cc.(*ast.CaseClause)
+				for _, e := range cl.List {
+					exprs(e)
+				}
+				stmts(cl.Body, inLoop, inLit, x.Tag)
+			}
+		case *ast.TypeSwitchStmt:
+			for _, cc := range x.Body.List {
+				stmts(cc.(*ast.CaseClause).Body, inLoop, inLit, guard)
+			}
+		case *ast.SelectStmt:
+			for _, cc := range x.Body.List {
+				stmts(cc.(*ast.CommClause).Body, inLoop, inLit, guard)
+			}
+		case *ast.LabeledStmt:
+			stmt(x.Stmt, inLoop, inLit, guard)
+		case *ast.BranchStmt:
+			g := "<unconditional>"
+			if guard != nil {
+				g = one(guard)
+			}
+			if x.Tok == token.BREAK && inLoop && guard != nil && isCbCall(guard) {
+				return // the callback's own stop request
+			}
+			cuts = append(cuts, x.Tok.String()+" under "+g)
+		case *ast.ReturnStmt:
+			for _, r := range x.Results {
+				exprs(r)
+			}
+			if inLit {
+				for _, r := range x.Results {
+					if id, ok := r.(*ast.Ident); ok && (id.Name == "false" || id.Name == "nil" || id.Name == "err") {
+						continue
+					}
+					if _, isCall := r.(*ast.CallExpr); isCall {
+						continue // a wrapped error / a delegated decision; callbacks of the confirm store return bools, see below
+					}
+					cuts = append(cuts, "callback returns "+one(r))
+				}
+				return
+			}
+			if inLoop {
+				last := "<nothing>"
+				if len(x.Results) > 0 {
+					last = one(x.Results[len(x.Results)-1])
+				}
+				if last == "nil" || last == "<nothing>" || last == "true" || last == "false" {
+					cuts = append(cuts, "leaves the loop early with "+one(x))
+				}
+			}
+		default:
+			exprs(s)
+		}
+	}
+	stmts = func(list []ast.Stmt, inLoop, inLit bool, guard ast.Expr) {
+		for _, s := range list {
+			stmt(s, inLoop, inLit, guard)
+		}
+	}
+	stmts(fd.Body.List, false, false, nil)
+	sort.Strings(cuts)
+	return cuts
+}
+
+// c06Closure: fd and every function of the package (syntactic, by name) reachable from it through calls whose name
+// matches follow.
+func c06Closure(files []*ast.File, root *ast.FuncDecl, follow func(string) bool) []*ast.FuncDecl {
+	seen := map[string]bool{root.Name.Name: true}
+	out := []*ast.FuncDecl{root}
+	for i := 0; i < len(out); i++ {
+		ast.Inspect(out[i].Body, func(x ast.Node) bool {
+			ce, ok := x.(*ast.CallExpr)
+			if !ok {
+				return true
+			}
+			name := ""
+			switch f := ce.Fun.(type) {
+			case *ast.SelectorExpr:
+				name = f.Sel.Name
+			case *ast.Ident:
+				name = f.Name
+			}
+			if name == "" || seen[name] || !follow(name) {
+				return true
+			}
+			for _, f := range files {
+				for _, d := range f.Decls {
+					if fd, ok := d.(*ast.FuncDecl); ok && fd.Name.Name == name && fd.Body != nil {
+						seen[name] = true
+						out = append(out, fd)
+					}
+				}
+			}
+			return true
+		})
+	}
+	return out
+}
+
+func c06Readers(c *Ctx) error {
+	files, err := c.ParseDir("x/skyway/keeper")
+	if err != nil {
+		return err
+	}
+	isConfirmStore := func(n string) bool { return strings.Contains(n, "BatchConfirm") }
+	type row struct {
+		fn   string
+		cuts []string
+	}
+	var rows []row
+	seen := map[string]bool{}
+	scanFrom := func(root *ast.FuncDecl) bool {
+		clean := true
+		for _, fd := range c06Closure(files, root, isConfirmStore) {
+			cuts := c06ScanCuts(c, fd)
+			if len(cuts) > 0 {
+				clean = false
+			}
+			name := fd.Name.Name
+			if r := c06RecvName(fd); r != "" {
+				name = r + "." + name
+			}
+			if !seen[name] {
+				seen[name] = true
+				rows = append(rows, row{name, cuts})
+			}
+		}
+		return clean
+	}
+
+	// (a) DeleteBatchConfirms: lists the confirms of (batch.BatchNonce, batch.TokenContract) through the getter and deletes each
+	del := FindFuncIn(files, "Keeper", "DeleteBatchConfirms")
+	if del == nil {
+		return fmt.Errorf("skyway Keeper.DeleteBatchConfirms not found")
+	}
+	delAll := scanFrom(del)
+	var listed string
+	ast.Inspect(del.Body, func(x ast.Node) bool {
+		as, ok := x.(*ast.AssignStmt)
+		if !ok || len(as.Rhs) != 1 || len(as.Lhs) < 1 {
+			return true
+		}
+		if ce, ok := as.Rhs[0].(*ast.CallExpr); ok && len(Calls(ce, "GetBatchConfirmByNonceAndTokenContract")) > 0 && len(ce.Args) == 3 &&
+			strings.HasSuffix(c.Src(ce.Args[1]), ".BatchNonce") && strings.HasSuffix(c.Src(ce.Args[2]), ".TokenContract") {
+			listed = c.Src(as.Lhs[0])
+		}
+		return true
+	})
+	deletesEach := false
+	if listed != "" {
+		for _, st := range del.Body.List {
+			rs, ok := st.(*ast.RangeStmt)
+			if !ok || c.Src(rs.X) != listed {
+				continue
+			}
+			guardsOK := true
+			ast.Inspect(rs.Body, func(x ast.Node) bool {
+				if is, ok := x.(*ast.IfStmt); ok {
+					cond := strings.Join(strings.Fields(c.Src(is.Cond)), " ")
+					if cond != "err != nil" && !strings.HasPrefix(cond, "store.Has(") {
+						guardsOK = false
+					}
+				}
+				return true
+			})
+			deletesEach = guardsOK && len(Calls(rs.Body, "Delete")) == 1 && len(Calls(rs.Body, "GetBatchConfirmKey")) == 1
+		}
+	}
+	if listed == "" || !deletesEach {
+		delAll = false
+		rows = append(rows, row{"Keeper.DeleteBatchConfirms(shape)", []string{"does not list the batch's confirms with GetBatchConfirmByNonceAndTokenContract(ctx, batch.BatchNonce, batch.TokenContract) and delete each under no condition but store.Has"}})
+	}
+
+	// (b) the one-confirmation-per-orchestrator / per-key checks of ConfirmBatch
+	msf, err := c.Parse("x/skyway/keeper/msg_server.go")
+	if err != nil {
+		return err
+	}
+	cb := FindFunc(msf, "msgServer", "ConfirmBatch")
+	if cb == nil {
+		return fmt.Errorf("msgServer.ConfirmBatch not found")
+	}
+	dupAll := scanFrom(cb)
+	if len(Calls(cb.Body, "GetBatchConfirmByNonceAndTokenContract")) != 1 || len(Calls(cb.Body, "GetBatchConfirm")) != 1 || len(Calls(cb.Body, "SetBatchConfirm")) != 1 {
+		dupAll = false
+		rows = append(rows, row{"msgServer.ConfirmBatch(shape)", []string{"expected one GetBatchConfirm (orchestrator), one GetBatchConfirmByNonceAndTokenContract (eth key) and one SetBatchConfirm"}})
+	}
+
+	// (c) the consensus queue's duplicate check reads the whole SignData
+	qf, err := c.Parse("x/consensus/keeper/consensus/consensus.go")
+	if err != nil {
+		return err
+	}
+	as := FindFunc(qf, "Queue", "AddSignature")
+	if as == nil {
+		return fmt.Errorf("Queue.AddSignature not found")
+	}
+	qcuts := c06ScanCuts(c, as)
+	rows = append(rows, row{"Queue.AddSignature", qcuts})
+	if len(qcuts) > 0 {
+		dupAll = false
+	}
+
+	c.P("(* the readers behind the clearing and duplicate checks (skyway confirm store API reachable from DeleteBatchConfirms and")
+	c.P("   ConfirmBatch; Queue.AddSignature), each with the constructs that could end its scan early or bound it *)")
+	var rs []string
+	info := map[string][]string{}
+	for _, r := range rows {
+		rs = append(rs, fmt.Sprintf("(%s, %s)", CoqStr(r.fn), CoqStrList(r.cuts)))
+		info[r.fn] = r.cuts
+	}
+	c.P("Definition confirm_readers : list (string * list string) :=\n  [%s].", strings.Join(rs, ";\n   "))
+	c.Info("confirm_readers", info)
+	c.P("Definition delete_confirms_reads_all : bool := %s.", c06Bool(delAll))
+	c.P("Definition dup_checks_read_all : bool := %s.", c06Bool(dupAll))
+
+	// (d) every removal path deletes the confirms
+	bf, err := c.Parse("x/skyway/keeper/batch.go")
+	if err != nil {
+		return err
+	}
+	for _, p := range [][2]string{{"CancelOutgoingTXBatch", "cancel_deletes_confirms"}, {"OutgoingTxBatchExecuted", "executed_deletes_confirms"}} {
+		fd := FindFunc(bf, "Keeper", p[0])
+		if fd == nil {
+			return fmt.Errorf("skyway Keeper.%s not found", p[0])
+		}
+		c.P("Definition %s : bool := %s.", p[1], c06Bool(len(Calls(fd.Body, "DeleteBatchConfirms")) > 0 && len(Calls(fd.Body, "DeleteBatch")) > 0))
+	}
+
+	// (e) confirmHandlerCommon refuses orchestrators whose validator is neither bonded nor unbonding
+	ch := FindFunc(msf, "msgServer", "confirmHandlerCommon")
+	if ch == nil {
+		return fmt.Errorf("msgServer.confirmHandlerCommon not found")
+	}
+	bondGate := false
+	for _, st := range ch.Body.List {
+		if is, ok := st.(*ast.IfStmt); ok {
+			cond := strings.Join(strings.Fields(c.Src(is.Cond)), " ")
+			if cond == "!validator.IsBonded() && !validator.IsUnbonding()" && len(is.Body.List) == 1 {
+				if _, ok := is.Body.List[0].(*ast.ReturnStmt); ok {
+					bondGate = true
+				}
+			}
+		}
+	}
+	c.P("Definition confirm_requires_bonded_or_unbonding : bool := %s.", c06Bool(bondGate))
+
+	// (f) valset GetSigningKey: which fields of an account every key-returning exit has compared with the arguments
+	vf, err := c.Parse("x/valset/keeper/keeper.go")
+	if err != nil {
+		return err
+	}
+	gs := FindFunc(vf, "Keeper", "GetSigningKey")
+	if gs == nil {
+		return fmt.Errorf("valset Keeper.GetSigningKey not found")
+	}
+	var fieldSets []map[string]bool
+	var visit func(list []ast.Stmt, conds []ast.Expr)
+	visit = func(list []ast.Stmt, conds []ast.Expr) {
+		for _, st := range list {
+			switch x := st.(type) {
+			case *ast.IfStmt:
+				visit(x.Body.List, append(append([]ast.Expr{}, conds...), x.Cond))
+				if x.Else != nil {
+					if b, ok := x.Else.(*ast.BlockStmt); ok {
+						visit(b.List, conds) // the negation compares nothing for our purpose
+					} else {
+						visit([]ast.Stmt{x.Else}, conds)
+					}
+				}
+			case *ast.RangeStmt:
+				visit(x.Body.List, conds)
+			case *ast.ForStmt:
+				visit(x.Body.List, conds)
+			case *ast.BlockStmt:
+				visit(x.List, conds)
+			case *ast.ReturnStmt:
+				if len(x.Results) != 2 || c.Src(x.Results[0]) == "nil" {
+					continue
+				}
+				set := map[string]bool{}
+				for _, cd := range conds {
+					ast.Inspect(cd, func(y ast.Node) bool {
+						be, ok := y.(*ast.BinaryExpr)
+						if !ok || be.Op != token.EQL {
+							return true
+						}
+						for _, pair := range [][2]ast.Expr{{be.X, be.Y}, {be.Y, be.X}} {
+							se, ok := pair[0].(*ast.SelectorExpr)
+							id, ok2 := pair[1].(*ast.Ident)
+							if ok && ok2 && (id.Name == "chainType" || id.Name == "chainReferenceID" || id.Name == "signedByAddress") {
+								set[se.Sel.Name] = true
+							}
+						}
+						return true
+					})
+				}
+				fieldSets = append(fieldSets, set)
+			}
+		}
+	}
+	visit(gs.Body.List, nil)
+	if len(fieldSets) == 0 {
+		return fmt.Errorf("GetSigningKey: no key-returning exit recognised")
+	}
+	common := map[string]bool{}
+	for k := range fieldSets[0] {
+		all := true
+		for _, fs := range fieldSets[1:] {
+			all = all && fs[k]
+		}
+		if all {
+			common[k] = true
+		}
+	}
+	c.P("(* x/valset/keeper/keeper.go GetSigningKey: account fields that EVERY key-returning exit has compared (==) with the")
+	c.P("   chain type / chain reference / signed-by address arguments; number of such exits *)")
+	c.P("Definition signing_key_match_fields : list string := %s.", CoqStrList(SortedSet(common)))
+	c.P("Definition signing_key_exits : Z := %d.", len(fieldSets))
+	return nil
 }
